@@ -148,16 +148,11 @@ let sem_chain (e : Sexp.t) : Sexp.t =
         let in_class = match List.nth_opt models i with Some m -> not (M.ProblemPrint.ident_ok m) | None -> false in
         match (try Ok (Tff_problem_read.read text) with Tff_problem_read.Read_error msg -> Error msg) with
         | Error msg -> if not in_class then fail i (L [ A "unreadable"; S msg ])
+        | Ok _ when in_class -> ()   (* identifier clashes (C09 IdentClass): constants do not denote themselves *)
         | Ok tp ->
           let starts pre s = String.length s >= String.length pre && String.sub s 0 (String.length pre) = pre in
           let chain = List.filter (fun a -> starts "symbol_order_" (str_of a.M.Tff.n_name)) tp.M.Tff.tp_formulas in
           let syms = List.filter_map (fun dcl -> if starts "type_symbol_" (str_of dcl.M.Tff.d_name) then Some dcl.M.Tff.d_ident else None) tp.M.Tff.tp_decls in
-          let w = { w_ints = []; w_syms = [] } in
-          (* truth in the standard structure: no placeholders, no predicates, no variables *)
-          List.iter (fun a ->
-              incr count;
-              if not (M.TffEval.tff_eval w [] [] [] a.M.Tff.n_formula) then
-                fail i (L [ A "symbol-order-axiom-false-in-the-standard-interpretation"; S (str_of a.M.Tff.n_name) ])) chain;
           (* shape: p__less__(f__symbolic__(a), f__symbolic__(b)), consecutive *)
           let pairs = List.map (fun a ->
               match a.M.Tff.n_formula with
@@ -166,6 +161,13 @@ let sem_chain (e : Sexp.t) : Sexp.t =
           if List.exists (fun x -> x = None) pairs then fail i (L [ A "symbol-order-axiom-of-unexpected-shape" ])
           else begin
             let pairs = List.filter_map (fun x -> x) pairs in
+            (* truth in the standard structure: symbolic constants denote themselves and are ordered
+               by the lexicographic byte order of their names *)
+            List.iter2 (fun a (x, y) ->
+                incr count;
+                if not (compare (str_of x) (str_of y) < 0) then
+                  fail i (L [ A "symbol-order-axiom-false-in-the-standard-interpretation"; S (str_of a.M.Tff.n_name);
+                              S (str_of x); S (str_of y) ])) chain pairs;
             let rec linked = function (_, b) :: ((c, _) :: _ as r) -> b = c && linked r | _ -> true in
             if not (linked pairs) then fail i (L [ A "symbol-order-axioms-do-not-form-a-chain" ]);
             let mentioned = List.concat_map (fun (a, b) -> [ a; b ]) pairs in
